@@ -442,17 +442,12 @@ func (it *Interp) selectOp(fr *frame, instr *ssa.Select) Value {
 
 // ---- virtual clock ----
 
-// now returns the current virtual time; every call may advance it by an arbitrary
-// non-negative amount (fresh symbol), unless the harness froze the clock.
+// now returns the current virtual time.
 func (it *Interp) now() *Term {
-	c := it.ctx
 	if it.clock == nil {
-		t := it.fresh("clock", 64)
-		// 2^40 ns <= t0 < 2^61 ns
-		it.assume(c.Ule(c.BV(1<<40, 64), t))
-		it.assume(c.Ult(t, c.BV(1<<61, 64)))
-		it.clock = t
-		return t
+		// like testing/synctest: the virtual clock starts at 2000-01-01T00:00:00Z and
+		// moves only through zzrt.ClockAdvance / time.Sleep / timer firing.
+		it.clock = it.ctx.BV(946684800_000000000, 64)
 	}
 	return it.clock
 }
